@@ -15,12 +15,12 @@ META = {
                  "read by a reference comment lexer as exactly one comment, and that the trivia filters keep code "
                  "tokens; model tied to the Rust code through hooks evaluated inside Coq; end-to-end runs through "
                  "darklua_core::process checked by an independent reference Lua lexer",
-    "level_text": "Machine-checked theorems (Coq 8.16 kernel): for every text outside two recorded defect classes the "
-                  "appended comment is closed exactly where the rule closed it (reference lexer written from the Lua "
-                  "manual), the text is inside it verbatim, the start shift equals the lines inserted, and the token "
+    "level_text": "Machine-checked theorems (Coq 8.16 kernel): for every text the "
+                  "appended comment is closed exactly where the rule closed it (reference lexers written from the Lua "
+                  "manual: Luau/5.2+ and Lua 5.1 with its nested-[[ rule), the text is inside it verbatim, the start shift equals the lines inserted, and the token "
                   "level filters keep code and remove exactly the selected comments (_partial: the per-node visitors, "
-                  "the parser and the re-lexing of generated text are exercised, not proved). The two classes are "
-                  "proved to be real (_refuted witnesses) and replayed on the code. Every run compares the model with "
+                  "the parser and the re-lexing of generated text are exercised, not proved). The remaining generator "
+                  "defects are proved to be real (_refuted witnesses) and replayed on the code. Every run compares the model with "
                   "the compiled Rust functions and re-lexes the output of darklua_core::process with an independent lexer.",
     "level_note": "Trusted: Coq kernel + vm_compute; the reference comment lexer lex_comment in Model/CommentText.v and "
                   "the Python reference lexer vlib/c18_lex.py (specification); Python `re` as the regex oracle for simple "
@@ -57,9 +57,9 @@ Definition oracle_ok (c : T) : bool :=
   match c_comment c with
   | [] => match c_text c with [] => true | _ => false end
   | k =>
-    match lex_comment (List.app k [10; 120]), lex_comment k with
-    | Some a, Some b => Nat.eqb a (List.length k) && Nat.eqb b (List.length k)
-    | _, _ => false
+    match lex_comment (List.app k [10; 120]), lex_comment k, lex_comment51 (List.app k [10; 120]) with
+    | Some a, Some b, Some c => Nat.eqb a (List.length k) && Nat.eqb b (List.length k) && Nat.eqb c (List.length k)
+    | _, _, _ => false
     end
   end.
 Definition check_case (c : T) : bool := model_ok c && oracle_ok c.
@@ -113,8 +113,6 @@ EXCEPTS = [
 
 
 # one key per recorded defect class, named after the class and its canonical witness
-KEY_OPENER = "append-text-opener:[[_hello"
-KEY_CR = "append-text-cr:a\\rprint(2)"
 KEY_END = "append-end-before-trailing-comments:print(1)\\n--_bye"
 KEY_SOURCE_CR = "remove-comments-source-cr:--_a\\rprint(2)"
 
@@ -127,15 +125,9 @@ KEY_MINUS = "remove-spaces-minus-before-comment:a_-_--_c"
 
 
 def known_class(text):
-    """decidable classification of a text into the recorded defect classes (input-side only)"""
-    if "\n" in text:
-        return None
-    if re.match(r"\[=*\[", text):
-        return KEY_OPENER
-    if "\r" in text:
-        return KEY_CR
-    # (texts like `[a[` used to be a recorded class: the generator took `--[a[` for a long comment; repaired by
-    # /repo fc507f0, the regression inputs stay in FIXED_TEXTS / FILES and are reported unkeyed if it returns)
+    """input-side class of a text.  The two former classes (a single-line text beginning with a long-bracket
+    opener, a text with a carriage return) were repaired by /repo d1a6e5c: such texts now go into a long
+    comment.  The inputs stay in FIXED_TEXTS / PIECES; a regression is reported unkeyed."""
     return None
 
 
@@ -547,8 +539,17 @@ def run(ctx):
                     # (line comments that lose the line break between them are written as one comment)
                     if text and not any(tb in c for c in outc):
                         problem = "the text is in no comment of the output"
-                    elif len(joined(outc)) != len(joined(inc)) + (len(tb) + 2 if text and "\n" not in text else 0) and "\n" not in text:
-                        problem = "comment bytes changed: %r vs %r" % (inc[:4], outc[:4])
+                    else:
+                        hay, pos = joined(outc), 0
+                        for piece in inc:
+                            k = hay.find(piece, pos)
+                            if k < 0:
+                                problem = "original comment %r is gone: %r" % (piece[:30], outc[:4])
+                                break
+                            pos = k + len(piece)
+                        extra = len(hay) - len(joined(inc))
+                        if problem is None and not (len(tb) <= extra <= 3 * len(tb) + 10 or not text and extra == 0):
+                            problem = "comment bytes changed by %d for a text of %d bytes" % (extra, len(tb))
             if problem is not None:
                 key = known_class(text)
                 if key is None and kind == "append+spaces" and minus_before_comment(src):
